@@ -53,15 +53,18 @@ Src(cs) == IF cs.dc # None THEN cs.dc ELSE cs.pos
 JsonTries(c, ln) == JForce(ln) \/ IsJson(c)
 
 ---------------------------------------------------------------------------
-(* Calls whose outcome no documentation sentence decides.                                          *)
+(* Calls whose outcome no documentation sentence decides (not judged; they end the documented part  *)
+(* of the history):                                                                                *)
 (*  - request_data.rst: "Also you can *either* read the stream *or* call get_data()": what a direct *)
-(*    stream read returns after get_data() cached the body is open (the code may hand the cached    *)
-(*    bytes out again through a BytesIO when the form parser left them unread).                     *)
-(*  - get_json(cache=False): "cache: Store the parsed JSON to return for subsequent calls" does not *)
-(*    say whether the *data* read for it is kept; get_json says "Parse data as JSON" (the cached    *)
-(*    attribute) but the code reads get_data(cache=cache).                                          *)
+(*    stream read returns after get_data() cached the body is open (the code hands the cached bytes *)
+(*    out again through a BytesIO when the form parser left them unread: get_data(); form;          *)
+(*    stream.read() on a non-form content type).                                                    *)
 (*  - get_json(force=True) on a form content type: "Parse :attr:`data` as JSON" (data "Will be      *)
 (*    empty if the request represents form data") vs. the code parsing get_data().                  *)
+(* OpenAfter: the call is judged, the state after it is open:                                       *)
+(*  - get_json(cache=False) that reads the stream: "cache: Store the parsed JSON to return for       *)
+(*    subsequent calls" does not say whether the *data* read for it is kept ("Parse data as JSON"    *)
+(*    names the cached attribute, the code reads get_data(cache=cache)).                            *)
 Undocumented(c, cs, ln) ==
   \/ ln.op = "stream_read" /\ cs.dc # None /\ ln.rb # <<>>
   \/ ln.op \in JsonOps /\ JForce(ln) /\ IsForm(c) /\ ~c.shallow
@@ -132,6 +135,8 @@ DocStream(c, cs, ln) ==
 DocData(c, cs, ln) ==
   LET pfd == ln.op = "data" \/ ln.pfd IN
   IF Raised(ln) THEN "UnexpectedException"
+  (* get_data: "If as_text is set to True the return value will be a decoded string."; otherwise "one bytes object" *)
+  ELSE IF ln.rk # (IF ln.op = "get_data" /\ ln.text THEN "text" ELSE "bytes") THEN "AsTextDecodes"
   ELSE IF cs.dc # None THEN
        (* get_data: "By default this is cached"; "if the whole data is cached (which is the default) the   *)
        (*  form parser will used the cached data"; with parse_form_data on form data "the return value ... *)
